@@ -53,6 +53,10 @@ func genRobustPlan(seed uint64, tier string) *Plan {
 	}
 	c.Name = "svc.example.com"
 	c.Routes = nil // the sentinel is a plain service request: nothing may route it elsewhere
+	if c.Knobs == nil {
+		c.Knobs = map[string]int{}
+	}
+	c.Knobs["maxSteps"] = 400000
 	p.Cfg = *c
 	o := &relayGenOpts{focus: "C08", maxVal: 2000, maxBody: 4000, rich: true, responses: true}
 	n := g.rng(3, 10)
@@ -456,6 +460,13 @@ func execRobust(t *testing.T, p *Plan) *Result {
 			}
 		}
 	})
+	// a goroutine that keeps the world busy for ever: the step limit is a livelock here
+	if w.K.StepLimit {
+		name, share := w.K.Busiest()
+		w.Viol = append(w.Viol, Violation{Prop: "C08", Rule: "livelock", Sig: "goroutine=" + name,
+			Detail: fmt.Sprintf("the world did not become quiescent within %d scheduling steps; goroutine %s took %.0f%% of them (it loops without waiting for input)", w.K.Step, name, share*100)})
+		w.K.StepLimit = false
+	}
 	// panics are C08 violations wherever they occur
 	for i := range w.Viol {
 		if w.Viol[i].Rule == "panic" {
